@@ -320,6 +320,36 @@ func (e *cdEnv) placeholder(name, val string, set bool) {
 	}
 }
 
+// multi prepares environment and property file of a value that holds SEVERAL placeholders (TLC: MultiOf) and returns the text
+// of the value.  val -> VERIF_MV (holds the leaf's value), empty -> VERIF_ME (set, empty), unset -> VERIF_MU (not set; names
+// that are a prefix / an extension of it are present).  Every part names its own source (env | property).
+func (e *cdEnv) multi(m map[string]interface{}, val string) string {
+	os.Unsetenv("VERIF_MU")
+	os.Setenv("VERIF_MV", val)
+	os.Setenv("VERIF_ME", "")
+	os.Setenv("VERIF_MU_EXT", "wrong-ext")
+	os.Setenv("VERIF_M", "wrong-short")
+	content := "VERIF_MU_EXT=wrong-ext\nVERIF_M=wrong-short\n# VERIF_MU=commented\nVERIF_ME=\nVERIF_MV=" + val + "\nVERIF_MV2=wrong-2\n"
+	if err := os.WriteFile(e.props, []byte(content), 0644); err != nil {
+		panic(err)
+	}
+	names := map[string]string{"val": "VERIF_MV", "empty": "VERIF_ME", "unset": "VERIF_MU"}
+	var phs []string
+	for _, x := range vt.List(m["parts"]) {
+		part := vt.Map(x)
+		n, ok := names[vt.Str(part["what"])]
+		if !ok {
+			panic("unknown placeholder part " + vt.Str(part["what"]))
+		}
+		if vt.Str(part["src"]) == "env" {
+			phs = append(phs, "${env:"+n+"}")
+		} else {
+			phs = append(phs, "${property:"+e.props+"#"+n+"}")
+		}
+	}
+	return vt.Str(m["pre"]) + strings.Join(phs, vt.Str(m["sep"])) + vt.Str(m["post"])
+}
+
 // adversarial renders the environment of a phadv case as TLC describes it (property file lines, end of line, variables)
 // and returns the placeholder text for the requested key / name.
 func (e *cdEnv) adversarial(adv map[string]interface{}) string {
@@ -593,6 +623,12 @@ func confdecodeMain(args []string) {
 			ph := e.adversarial(vt.Map(line["adv"]))
 			for i := range set {
 				set[i].V = strings.ReplaceAll(set[i].V, "@ADVPH@", ph)
+			}
+		}
+		if kind == "phmulti" || kind == "phmultisep" {
+			text := e.multi(vt.Map(line["multi"]), vt.Str(line["phval"]))
+			for i := range set {
+				set[i].V = strings.ReplaceAll(set[i].V, "@MULTIPH@", text)
 			}
 		}
 		emit := func(via, shape, reg string) {
